@@ -2,3 +2,4 @@ import PflDrv.Json
 import PflDrv.FA
 import PflDrv.CFG
 import PflDrv.PDA
+import PflDrv.FST
